@@ -75,6 +75,7 @@ func runCutoff(c CutoffCase, o *Obs) error {
 	type branch struct {
 		db      *kv.DB
 		content map[string]string
+		when    int64 // the handle's opening time: the creation time of every version it commits
 	}
 	open := func() (*branch, error) {
 		clock += 10
@@ -101,11 +102,15 @@ func runCutoff(c CutoffCase, o *Obs) error {
 				for k, v := range content {
 					cp[k] = v
 				}
+				// a version committed by this open (the merge of the current versions)
+				if got := versionCreated(store, prefix, r); got != clock {
+					return nil, fmt.Errorf("the open at time %d committed version %s, which records the creation time %d ('when' marks the creation time of the new version)", clock, r, got)
+				}
 				vers[r] = &verInfo{created: clock, parents: names, content: cp}
 				times = append(times, clock)
 			}
 		}
-		return &branch{db, content}, nil
+		return &branch{db, content, clock}, nil
 	}
 	br := make([]*branch, 2)
 	for i := range br {
@@ -177,7 +182,10 @@ func runCutoff(c CutoffCase, o *Obs) error {
 					for k, v := range b.content {
 						cp[k] = v
 					}
-					vers[*name] = &verInfo{created: versionCreated(store, prefix, *name), parents: before, content: cp}
+					if got := versionCreated(store, prefix, *name); got != b.when {
+						return fmt.Errorf("%s: version %s was committed through a handle opened at time %d but records the creation time %d ('when' marks the creation time of the new version)", where, *name, b.when, got)
+					}
+					vers[*name] = &verInfo{created: b.when, parents: before, content: cp}
 				}
 			}
 		case "merge":
